@@ -1,3 +1,20 @@
-"""Predicates and witnesses for entries of /verif/known_findings.json (filled in per finding)."""
+"""Witnesses (native reproductions) for entries of /verif/known_findings.json."""
+import numpy as np
+
 PREDICATES = {}
 WITNESSES = {}
+
+
+def _c17_seam_point():
+    import verde
+
+    for lon, region in ((360.0, [135.0, 360.0, 0.0, 1.0]), (180.0, [-45.0, 180.0, 0.0, 1.0])):
+        coords, reg = verde.longitude_continuity((np.array([lon]), np.array([0.5])), region)
+        ins = bool(verde.inside((coords[0], coords[1]), reg)[0])
+        angular = ((lon - region[0]) % 360) <= ((region[1] - region[0]) % 360)
+        if ins == angular:
+            return False, "lon=%s region=%s is now handled consistently" % (lon, region)
+    return True, "reproduced"
+
+
+WITNESSES["c17_seam_point"] = _c17_seam_point
